@@ -17,9 +17,13 @@ Lemma all_source_varid_patterns_have_arg :
   forallb (fun e => let '(k, _, _, _) := e in negb ((k =? 0) || (k =? 2)) || src_varid_arg e) source_patterns = true.
 Proof. vm_compute. reflexivity. Qed.
 
-(* some source pattern tells apart compiled and interpreted on the token  void  with tokType eName
-   (the type Token::type(nullptr) leaves on a standard type) *)
-Definition void_ename : tk := mk_tk [118;111;105;100] 0 eName.
+(* the token  void  with tokType eName (left by Token::type(nullptr)), the variables named
+   true / restrict: no source pattern tells compiled and interpreted apart on them any more
+   (they did before /repo 29e7f6a) *)
+Definition name_tokens : list tk :=
+  [mk_tk [118;111;105;100] 0 eName; mk_tk [114;101;115;116;114;105;99;116] 0 eName;
+   mk_tk [114;101;115;116;114;105;99;116] 5 eVariable; mk_tk [116;114;117;101] 5 eVariable;
+   mk_tk [102;97;108;115;101] 5 eVariable; mk_tk [97;117;116;111] 0 eName].
 Definition differs_on (t : tk) (e : N * bool * bool * str) : bool :=
   let '(k, hv, he, s) := e in
   match compiled_str 5 s [t], (if (k =? 0) || (k =? 2) then interp_chars 5 s [t] else simple_chars s [t]) with
@@ -27,8 +31,9 @@ Definition differs_on (t : tk) (e : N * bool * bool * str) : bool :=
   | Rfalse, Rtrue => true
   | _, _ => false
   end.
-Lemma source_pattern_differs_on_void_ename :
-  existsb (differs_on void_ename) source_patterns = true /\ tk_inv void_ename = false.
+Lemma no_source_pattern_differs_on_name_tokens :
+  forallb (fun t => negb (existsb (differs_on t) source_patterns)) name_tokens = true /\
+  forallb tk_inv name_tokens = true.
 Proof. vm_compute. split; reflexivity. Qed.
 
 (* how many source patterns contain a literal with a quote character (their literals are
